@@ -634,10 +634,12 @@ def monitored_overlay(cfg):
 
 def run_layers(agg, prop, tier, seed, spec, cfgs, nsh, wdir, prefix="L"):
     jobs = []
-    for cfg, scale in cfgs:
+    for ent in cfgs:
+        cfg, scale = ent[0], ent[1]
+        mode = ent[2] if len(ent) > 2 else ""
         try:
             ov, rep = monitored_overlay(cfg)
-            binp = build(cfg, "layers", overlay=ov, extra_tags=["verifmon"], suffix="-mon")
+            binp = build(cfg, "layers", overlay=ov, extra_tags=["verifmon"], suffix="-mon", asan=(mode == "asan"))
             missing = [m for v in rep.values() for m in (v.get("missing") or [])]
             if missing:
                 agg.inconclusive.append("%s: instrumenter did not find %s (monitors on them are absent)" % (cfg, ",".join(missing)))
@@ -645,9 +647,13 @@ def run_layers(agg, prop, tier, seed, spec, cfgs, nsh, wdir, prefix="L"):
             log(str(e)[-1500:])
             agg.inconclusive.append("%s: monitored build failed (overlay not applicable to this tree?)" % cfg)
             continue
+        label = cfg + ("+" + mode if mode else "")
+        env = dict(os.environ)
+        if mode == "asan":
+            env["ASAN_OPTIONS"] = "halt_on_error=1:abort_on_error=1:detect_leaks=0"
         for s_ in range(nsh):
-            out = os.path.join(wdir, "%s%s-%d.json" % (prefix, cfg, s_))
-            jobs.append({"cfg": cfg, "out": out, "log": out + ".log",
+            out = os.path.join(wdir, "%s%s-%d.json" % (prefix, label, s_))
+            jobs.append({"cfg": label, "out": out, "log": out + ".log", "env": env,
                          "args": [binp, "-prop", prop, "-tier", tier, "-seed", str(seed), "-shard", str(s_), "-nshards", str(nsh),
                                   "-config", cfg, "-scale", str(scale), "-out", out]})
     for j, st, rc in run_shards(jobs, spec.get("timeout", {}).get(tier, 2400)):
@@ -965,7 +971,7 @@ SPECS = {
     "C15": {"engine": "conc", "configs": {"quick": ["K0", "K2"], "thorough": ["K0", "K1", "K2", "K4", "K5", "K6"]}, "floor": 15000,
             "rule": "evaluations = API calls executed in shuffled sequential orders and concurrently (G goroutines x GOMAXPROCS shapes, -race build) and compared with the solitary result of the same call from a fresh process; non-trivial/distinct = distinct ordered (predecessor, call) pairs in sequential mode plus distinct pairs of different calls whose executions overlapped (ticket counter) in concurrent mode",
             "assumptions": ["Go race detector (happens-before, reports only races that occur in observed executions; amd64 only, GOARCH=386 runs without it)", "solitary results come from the same build configuration, one fresh process per call", "interleavings are those the Go scheduler produced under the listed goroutine/GOMAXPROCS shapes with PRNG-driven Gosched"]},
-    "C16": {"engine": "layers", "configs": {"quick": [("K0", 1), ("K1", 0.5), ("K2", 0.5), ("K6", 0.15)], "thorough": [("K0", 1), ("K1", 0.3), ("K2", 0.5), ("K3", 0.1), ("K4", 0.3), ("K5", 0.3), ("K6", 0.15)]}, "floor": 3000,
+    "C16": {"engine": "layers", "configs": {"quick": [("K0", 1), ("K1", 0.5), ("K2", 0.5), ("K6", 0.15)], "thorough": [("K0", 1), ("K1", 0.3), ("K2", 0.5), ("K3", 0.1), ("K4", 0.3), ("K5", 0.3), ("K6", 0.15), ("K1", 0.05, "asan"), ("K2", 0.05, "asan")]}, "floor": 3000,
             "rule": "evaluations = workload items (selector cases 32x17 exhaustive on every configuration, conditional-move cases, fixed-base and double-base multiplications incl. digit-targeted scalars, group-law blocks, API rounds); each instrumented call inside them is judged by the monitors (counts under monitored_events); distinct = distinct scalar-multiplication inputs and selector cases",
             "assumptions": ["the big-integer specification of each routine (package mon) and the reference model (package ref), self-validated at start-up",
                             "monitor wrappers are generated from the function signatures of the current tree (go/ast) and injected with -overlay; a routine whose wrapper cannot be generated is reported inconclusive",
